@@ -198,6 +198,11 @@ def gen_cases(tier, seed):
     for form in ARRAY_AS_SCALAR:
         for ctx in ("converter", "stock"):
             cases.append(dict(kind="array-as-scalar", form=form, ctx=ctx, vals=0))
+    # an expression where only a number is supported: the equation of a constant
+    for first in (None, 7.0):
+        for tree in (["bin", "-", ["ref", "c1"], ["ref", "c2"]], ["bin", "*", ["ref", "c3"], ["num", 2.0]], ["ref", "c1"], ["fn", "exp", ["ref", "c3"]], ["neg", ["ref", "c2"]],
+                     ["bin", "+", ["ref", "v1"], ["num", 1.0]], ["if", ["cmp", ">", ["ref", "c1"], ["ref", "c2"]], ["ref", "c1"], ["ref", "c2"]], ["agg", "sum", "vec"]):
+            cases.append(dict(kind="constant-expr", tree=tree, first=first, vals=0))
     rng = random.Random(1000 + seed)
     n = 2500 if tier == "quick" else 120000
     for i in range(n):
@@ -283,10 +288,42 @@ def run_array_as_scalar(case):
                 witness=dict(form=case["form"], context=case["ctx"], value=repr(v), function_string=getattr(el, "function_string", None)))
 
 
+def run_constant_expr(case):
+    """An expression given to a CONSTANT: it is either rejected or the constant then has the expression's value; keeping another value silently is neither."""
+    vals = VALSETS[case["vals"]]
+    tree = case["tree"]
+    env = X.Env(vals, t=T0, vecs=VECS)
+    env.t0 = T0
+    counters = {"constant_expression_forms": 1}
+    try:
+        ref = X.ev(tree, env)
+    except X.IllConditioned:
+        return dict(verdict="illcond", counters={"illcond": 1})
+    m, E = build_model(vals)
+    try:
+        k = m.constant("k")
+        if case.get("first") is not None:
+            k.equation = case["first"]
+        k.equation = X.to_dsl(tree, E, m)
+        got = k(T0)
+        seen_by_dependant = None
+        dep = m.converter("dep")
+        dep.equation = k * 2.0
+        seen_by_dependant = dep(T0)
+    except Exception as e:
+        return dict(verdict="rejected", counters=counters, sample=dict(tree=X.show(tree), rejected_with=type(e).__name__))
+    if not X.close(got, ref) or not X.close(seen_by_dependant, 2.0 * float(ref)):
+        return dict(verdict="violated", counters=counters, mech="constant-given-an-expression-keeps-another-value",
+                    witness=dict(tree=X.show(tree), expected=float(ref), got=repr(got), dependant=repr(seen_by_dependant), value_before=case.get("first")))
+    return dict(verdict="held", counters=counters)
+
+
 def run_case(case):
     import math
     if case["kind"] == "array-as-scalar":
         return run_array_as_scalar(case)
+    if case["kind"] == "constant-expr":
+        return run_constant_expr(case)
     vals = VALSETS[case["vals"]]
     tree = case["tree"]
     env = X.Env(vals, t=T0, vecs=VECS)
